@@ -115,6 +115,9 @@ type Backend struct {
 	Attempts       map[string]int
 	Log            []Rec
 	BadKeyspaces   map[string]message.Message
+	SlowKeyspaces  map[string]time.Duration // USE of these is answered only after the delay (a backend slower than the proxy's connect timeout)
+	OddKeyspaces   map[string]bool          // USE of these is answered with a RESULT that is not set_keyspace
+	StartupDelay   time.Duration            // every STARTUP is answered after this delay (widens the window in which a session is being created)
 	PrepareErr     map[string][]Outcome // per prepared-id (hex) outcomes of PREPARE attempts
 	prepAttempts   map[string]int
 	nextConn       int
@@ -138,7 +141,7 @@ func New(prefix string, port int) *Backend {
 	return &Backend{
 		Port: port, Prefix: prefix, Hosts: map[string]*Host{}, DC: "dc1",
 		MaxVersion: primitive.ProtocolVersionDse2, Script: map[string][]Outcome{},
-		Attempts: map[string]int{}, BadKeyspaces: map[string]message.Message{},
+		Attempts: map[string]int{}, BadKeyspaces: map[string]message.Message{}, SlowKeyspaces: map[string]time.Duration{}, OddKeyspaces: map[string]bool{},
 		PrepareErr: map[string][]Outcome{}, prepAttempts: map[string]int{}, PrepText: map[string]string{},
 		Default: Outcome{Kind: OkRows}, HostDefault: map[string]*Outcome{}, Muted: map[string]bool{},
 		HostPrepareErr: map[string]*Outcome{},
@@ -276,6 +279,20 @@ func (b *Backend) SetHostDefault(n int, o *Outcome) {
 }
 
 // ReleaseOptions sends the withheld OPTIONS answers in the order the requests arrived.
+// SetStartupDelay makes every later STARTUP wait before it is answered.
+func (b *Backend) SetStartupDelay(d time.Duration) {
+	b.mu.Lock()
+	b.StartupDelay = d
+	b.mu.Unlock()
+}
+
+// SetSlowKeyspace delays the answer to USE of that keyspace.
+func (b *Backend) SetSlowKeyspace(ks string, d time.Duration) {
+	b.mu.Lock()
+	b.SlowKeyspaces[ks] = d
+	b.mu.Unlock()
+}
+
 func (b *Backend) ReleaseOptions() {
 	b.mu.Lock()
 	b.HoldOptions = false
@@ -693,7 +710,11 @@ func (c *Conn) handle(hdr, body, raw []byte) bool {
 			}
 		}
 		c.logRec(rec)
+		sdelay := be.StartupDelay
 		be.mu.Unlock()
+		if sdelay > 0 {
+			time.Sleep(sdelay)
+		}
 		c.host.mu.Lock()
 		c.started = true
 		c.startupVer = byte(version)
@@ -742,11 +763,19 @@ func (c *Conn) handle(hdr, body, raw []byte) bool {
 			if strings.Trim(ks, "\"") == "" || strings.ContainsAny(ks, "\x00;") {
 				bad, isBad = &message.Invalid{ErrorMessage: "fb: invalid keyspace name"}, true
 			}
+			slow, odd := be.SlowKeyspaces[ks], be.OddKeyspaces[ks]
 			if !isBad {
 				c.keyspace = ks
 			}
 			c.logRec(rec)
 			be.mu.Unlock()
+			if slow > 0 {
+				time.Sleep(slow)
+			}
+			if odd {
+				c.sendMsg(stream, &message.VoidResult{})
+				return true
+			}
 			if isBad {
 				c.sendMsg(stream, bad)
 			} else {
